@@ -176,8 +176,18 @@ def r4(R, repo):
   t = [n for n in c.nodes if n.kind == 'if' and astu.src(n.ast) in ('rng_key in self.rng_counters', 'rng_key not in self.rng_counters')]
   ok = ok and len(st) == 1 and len(t) == 1 and c.edge_guarded(st[0], t[0], 'F' if ' not ' not in astu.src(t[0].ast) else 'T')
   fin = [n for n in c.nodes if isinstance(n.stmt, ast.Assign) and astu.src(n.stmt.targets[0]) == 'scope.rng_counters' and astu.src(n.stmt.value) == 'rng_counters']
-  R.judge(isinstance(rk, ast.Tuple) and len(st) == 1 and len(t) == 1, ok and len(fin) == 1, key_of(p, 'child counters stored under (token, name) and reused'), p,
-          'child counters must be kept in the parent under (child_rng_token, name), reused when the child is pushed again, and installed on the child scope')
+  over = None
+  for env in ({'rng_key in self.rng_counters': True, 'rng_key not in self.rng_counters': False, 'reuse': False}, {'rng_key in self.rng_counters': True, 'rng_key not in self.rng_counters': False, 'reuse': True}):
+    for s_ in st:
+      may_, must_ = evid.reach_env(c, env)
+      if s_ in must_:
+        over = (env, s_)
+  if over is not None:
+    R.fail(key_of(p, 'child counters stored under (token, name) and reused'), (p, over[1].stmt), 'Scope.push replaces the counters already stored for this child (`%s` is reached with the key present%s): a child that is '
+           'pushed again - a shared block applied twice - restarts its counters at zero and draws the same keys again' % (astu.short(over[1].stmt), '' if over[0]['reuse'] else ' and reuse=False'))
+  else:
+    R.judge(isinstance(rk, ast.Tuple) and len(st) == 1 and len(t) == 1, ok and len(fin) == 1, key_of(p, 'child counters stored under (token, name) and reused'), p,
+            'child counters must be kept in the parent under (child_rng_token, name), reused when the child is pushed again, and installed on the child scope')
   uses_len = [n for n in astu.body_walk(p.node) if isinstance(n, ast.Call) and astu.call_name(n) == 'len']
   R.check(not uses_len, key_of(p, 'no dependence on creation order'), p, 'Scope.push must not derive rng state from len(...) / creation order', evidence=True)
   cr = mod.func('LazyRng.create')
@@ -318,5 +328,6 @@ meta('C09',
          Mutant('C09-m7', RN, "    if len(backup) == 3:\n      stream.count.value = backup[2]", "    if len(backup) == 3:\n      stream.count.value = backup[1]", 'C09.R6'),
          Mutant('C09-m8', SC, "      if self.has_rng('params'):\n        name = 'params'\n      else:\n        raise errors.InvalidRngError(f'{self.name} needs PRNG for \"{name}\"')", "      name = 'params'", 'C09.R5'),
          Mutant('C09-m9', RN, "    key = jax.random.fold_in(self.key.value, self.count.value)\n    self.count.value += 1\n    return key", "    key = jax.random.fold_in(self.key.value, self.count.value)\n    return key", 'C09.R1'),
+         Mutant('C09-m10', SC, "    if rng_key in self.rng_counters:", "    if reuse and rng_key in self.rng_counters:", 'C09.R4', why='seed C09-C (round 2)'),
          Mutant('C09-b1', SC, "    self._check_valid()\n    self._validate_trace_level()\n    self.rng_counters[name] += 1\n    return LazyRng", "    self._validate_trace_level()\n    self._check_valid()\n    self.rng_counters[name] += 1\n    return LazyRng", kind='benign'),
      ])
